@@ -154,7 +154,9 @@ fn ws0(r: &mut Rng) -> String { match r.below(6) { 0 => "".into(), 1 => "  ".int
 fn ws1(r: &mut Rng) -> String { match r.below(5) { 0 => "  ".into(), 1 => "\t".into(), 2 => " \t ".into(), _ => " ".into() } }
 fn ms1(r: &mut Rng) -> String {
     match r.below(12) { 0 => "\r\n".into(), 1 => "\r".into(), 2 => " \n".into(), 3 => "\n\n".into(), 4 => " % a comment <00> endbfchar\n".into(),
-        5 => "\t\n  ".into(), _ => "\n".into() }
+        5 => "\t\n  ".into(),
+        // a comment DIRECTLY after the token (`>`, `]`, a keyword and `%` delimit tokens: no blank is needed)
+        6 => "%abutting comment <01> <0041>\n".into(), _ => "\n".into() }
 }
 fn target_text(r: &mut Rng, t: &[u16], upper: bool) -> String {
     let mut s = String::from("<");
